@@ -230,6 +230,9 @@ def run_case(c, d):
         except Exception as exc:
             c.exception('dpss', exc, feats)
             return
+        if d.get('i', 0) % 2:
+            # tapers that went through the caller's own storage: a C-contiguous copy (np.save / loadtxt / .copy())
+            v, e = np.ascontiguousarray(np.array(v, copy=True)), np.array(e, copy=True)
         e0, v0 = np.array(e, copy=True), np.array(v, copy=True)
         for rep in (1, 2):                       # the same precomputed arrays, reused
             try:
